@@ -706,6 +706,8 @@ class Executor:
         if isinstance(base, ModRef):
             return ModRef(base.dotted + "." + name)
         if isinstance(base, FuncRef):
+            if (base.qual + "." + name) in getattr(self, "enums", {}):
+                return self.enums[base.qual + "." + name]        # Enum member as its ordinal
             # class attribute / static method access
             try:
                 r = front.find_method(base.qual, name)
@@ -799,6 +801,8 @@ class Executor:
             if is_sym(idx):
                 raise Undecided("symbolic dict key")
             if idx not in base:
+                if hasattr(base, "default_factory") and base.default_factory is not None:
+                    return base[idx]
                 raise PyRaise("KeyError", str(idx))
             return base[idx]
         if isinstance(base, (ModRef, FuncRef)):
